@@ -345,7 +345,7 @@ def _futures_wait(ex, st, self_v, args, kwargs, node):
             ex.res(s2, s2.alloc(HObj("WaitResult", {"done": s2.alloc(HList([SymRef("FutObj", fresh_int("donefut"))]))})))]
 
 
-@contract("gunicorn.workers.gthread:ThreadWorker.run", props=("C13",))
+@contract("gunicorn.workers.gthread:ThreadWorker.run", props=("C13", "C18", "C04"))
 class GRun(Contract):
     """per iteration: connections are accepted only below the limit (call precondition of accept at every call site), the
     keep-alive reaper runs in EVERY iteration that completes, the data-structure invariants hold at every loop head"""
@@ -376,7 +376,11 @@ class GRun(Contract):
 
     def post(self, c):
         return [("keep-alive-reaper-ran-in-every-completed-iteration", c.st.ghost["mk_ok"]),
-                ("Inv:never-above-the-connection-limit", nr(c) <= W(c).fields["worker_connections"].t)]
+                ("Inv:never-above-the-connection-limit", nr(c) <= W(c).fields["worker_connections"].t),
+                # C18 / C04: leaving the loop (max_requests reached, TERM) must not drop requests that were already accepted and
+                # queued for a handler thread: the pool is shut down WITHOUT cancelling pending work
+                ("handlers-already-queued-are-not-cancelled-when-the-loop-ends", Not(c.st.ghost.get("pool_cancelled_pending", FALSE))),
+                ("the-pool-is-shut-down-once", c.st.ghost.get("pool_shutdowns", iv(0)) == 1)]
 
     loops = {0: dict(anchor="for sock in self.sockets", cands=[]),
              1: dict(anchor="while self.alive", cands=[
